@@ -51,6 +51,7 @@ type result struct {
 	Scenario   json.RawMessage `json:"scenario"`
 	Gen        []uint32        `json:"gen"`
 	Sched      []uint32        `json:"sched"`
+	Blocks     [][2]int        `json:"blocks"`
 	Race       string          `json:"race"`
 	Flavour    string          `json:"flavour"`
 	LogHash    uint64          `json:"log_hash"`
@@ -657,11 +658,11 @@ func report(norace, race, prop, tier string, seed uint64, f *result, known []kno
 	final := f
 	if len(f.Gen)+len(f.Sched) > 0 && f.Class != "library-exit" || f.Class == "library-exit" && len(f.Gen) > 0 {
 		if r0, ok := rp.try(f.Flavour, f.Gen, f.Sched, 0, f.Class); ok {
-			budget := 1500
+			budget := 4000
 			if v := os.Getenv("VERIF_SHRINK_BUDGET"); v != "" {
 				budget, _ = strconv.Atoi(v)
 			}
-			best, r := rp.minimise(f.Flavour, f.Gen, f.Sched, f.Class, budget)
+			best, r := rp.minimise(f.Flavour, f.Gen, f.Sched, f.Blocks, f.Class, budget)
 			if r == nil {
 				r = r0
 			}
